@@ -12,6 +12,7 @@ import itertools
 import math
 import multiprocessing as mp
 import os
+import re
 import shutil
 import sys
 
@@ -511,6 +512,46 @@ def run(ctx):
                     break
         return "%s:%s:%s:%s" % (c["model"], "+".join(ids) or "valid", verdict, c["entry"])
 
+    # force-output turns EACH untreatable condition into a warning: the warning kinds that an input-determined defect
+    # (negative soft mass^2; massless chargino next to a soft-mass partner) draws when it is the only defect must
+    # also be drawn when a second defect is present (differential oracle, no message text is hard-coded: the kinds
+    # are whatever the single-defect run on the same base / entry / configuration printed beyond the valid point)
+    def cfg_of(c):
+        return tuple(sorted((k, v) for k, v in c.items() if k not in ("ids", "body", "argstr")))
+
+    def wkinds(o):
+        return {re.sub(r"\s+", " ", re.sub(r"[0-9.eE+-]{3,}", "#", w)).strip()
+                for w in re.findall(r"Warning: ([^\n|]*)", o.get("text", "")) if "conver" not in w}
+    soft_id = re.compile(r"^(msl|mse|msq|msu|msd)\d\^2")
+    single_w, valid_w = {}, {}
+    for c, o in zip(cases, obs):
+        if c["model"] == "MSSM" and c["force"] == 1 and not o.get("crash") and not o["refused"]:
+            if len(c["ids"]) == 0:
+                valid_w[cfg_of(c)] = wkinds(o)
+            elif len(c["ids"]) == 1:
+                single_w[(c["ids"][0], cfg_of(c))] = wkinds(o)
+    nmono = 0
+    for c, o, vs in zip(cases, obs, verdicts):
+        if c["model"] != "MSSM" or c["force"] != 1 or len(c["ids"]) != 2 or o.get("crash") or o["refused"]:
+            continue
+        cf = cfg_of(c)
+        have = wkinds(o)
+        for i, d_id in enumerate(c["ids"]):
+            other = c["ids"][1 - i]
+            if not (soft_id.match(d_id) or (d_id == "cha0" and soft_id.match(other))):
+                continue
+            alone = single_w.get((d_id, cf))
+            if alone is None:
+                continue
+            nmono += 1
+            lost = sorted(alone - valid_w.get(cf, set()) - have)
+            if lost:
+                vs.append(("pair-warning-lost", None, "%s %s base %s, defects {%s}, force=1, entry %s: the warning %r that %s draws alone is missing "
+                           "when the second defect is present (diagnostics: %r)" % (c["model"], c["style"], c["base"], ", ".join(c["ids"]), c["entry"],
+                                                                                   lost, d_id, o.get("text", "")[-200:])))
+    ctx.note("pair_runs_checked_for_persisting_single_defect_warnings", nmono)
+    if nmono == 0:
+        raise InfraError("no forced defect pair was compared with its single-defect runs")
     # a defective object repaired with the valid values must give the result of a freshly built valid object
     fresh = {}
     for c, o in zip(cases, obs):
